@@ -340,7 +340,7 @@ func (c *Context) BindValidRequest(request *http.Request, route *MatchedRoute, b
 				res = append(res, err)
 			}
 			if len(res) == 0 {
-				cons, ok := route.Consumers[ct]
+				cons, ok := c.consumerFor(route, ct)
 				if !ok {
 					res = append(res, errors.New(http.StatusInternalServerError, "no consumer registered for %s", ct))
 				} else {
@@ -377,6 +377,20 @@ func (c *Context) BindValidRequest(request *http.Request, route *MatchedRoute, b
 		return errors.CompositeValidationError(res...)
 	}
 	return nil
+}
+
+// consumerFor picks the consumer of a media type: the route knows the consumers of the types its
+// consumes list names; a type admitted through a wildcard entry ("*/*", "type/*") is looked up in
+// the API-wide registrations.
+func (c *Context) consumerFor(route *MatchedRoute, mediaType string) (runtime.Consumer, bool) {
+	if cons, ok := route.Consumers[mediaType]; ok {
+		return cons, true
+	}
+	if len(route.Consumes) == 0 || c.api == nil {
+		return nil, false
+	}
+	cons, ok := c.api.ConsumersFor([]string{mediaType})[mediaType]
+	return cons, ok
 }
 
 // ContentType gets the parsed value of a content type
